@@ -13,7 +13,7 @@ pub static DEF: CheckDef = CheckDef {
     run_case,
     rule: "grid: image rows/cols 1..5, filter rows/cols 1..3 (<= image), strides 1..3 independently, depth 1..2, \
            filter count 1..2, batch absent/[1]/[2] - enumerated completely in the thorough tier, every 7th case in \
-           quick; rand: images up to 7x7, depth 1..3, count 1..4, batch absent/[1]/[2..3]/[2,2]. Integer data, \
+           quick; large: images up to 16x16, filters up to 5x5, strides 1..4, depth 1..4, count 1..5; rand: images up to 7x7, depth 1..3, count 1..4, batch absent/[1]/[2..3]/[2,2]. Integer data, \
            bit-exact comparison with the 7-loop definition. Non-trivial = more than one window or depth > 1 or a \
            batch; distinct = distinct (image dims, filter dims, strides).",
     floors,
@@ -51,7 +51,7 @@ fn grid_cases() -> Vec<[usize; 9]> {
 
 fn families(t: Tier) -> Vec<(&'static str, u64)> {
     let g = grid_cases().len() as u64;
-    vec![("grid", t.n(g / 7, g)), ("rand", t.n(6_000, 200_000)), ("nonfinite", t.n(1_000, 30_000))]
+    vec![("grid", t.n(g / 7, g)), ("rand", t.n(6_000, 200_000)), ("nonfinite", t.n(1_000, 30_000)), ("large", t.n(800, 20_000))]
 }
 fn floors(_t: Tier) -> Vec<(&'static str, u64)> {
     vec![
@@ -81,6 +81,21 @@ pub fn run_case(ctx: &mut Ctx, fam: &str, k: u64, r: &mut Rng) {
             0 => vec![],
             1 => vec![1],
             _ => vec![2],
+        };
+    } else if fam == "large" {
+        fr = r.range(1, 5);
+        fc = r.range(1, 5);
+        h = fr + r.below(12);
+        w = fc + r.below(12);
+        sr = r.range(1, 4);
+        sc = r.range(1, 4);
+        d = r.range(1, 4);
+        cnt = r.range(1, 5);
+        batch = match r.below(5) {
+            0 => vec![],
+            1 => vec![1],
+            2 | 3 => vec![r.range(2, 4)],
+            _ => vec![2, 2],
         };
     } else {
         fr = r.range(1, 3);
